@@ -30,6 +30,7 @@ RULE = ("Inputs = gadget programs naming dangerous and probe globals through eve
         "8 entry points. The check is an audit-event / import-machinery monitor, evaluated whether the entry point returns or raises.")
 ASSUMPTIONS = [
     "effects are observed through CPython audit events (import, exec, compile, open, os.system, os.exec*, os.posix_spawn, os.fork, subprocess.Popen, socket.*, ctypes.dlopen, pickle.find_class, marshal.loads) and a sys.meta_path recorder for probe module names; an effect that raises no audit event and touches no import machinery is invisible",
+    "exec / compile events count only when the compiled text or code object mentions a name or string constant taken from the input",
     "an event counts when a /repo/fickling frame is on the stack nearer than any CrossHair/z3 frame; exec/compile events raised while the import system loads a non-probe module (lazy stdlib imports) are not attributed to the input",
     "the declared JSON report of --check-safety is the only file that may be opened for writing",
     "polyglot / pytorch entry points are outside the property's entry-point list",
@@ -70,6 +71,23 @@ def _attribute():
     return None
 
 
+ALL_TOKENS = set()      # every name / string constant of the program under analysis
+
+
+def _mentions_input(args):
+    """compiling or executing text is the input's doing only if that text (or code object) carries something taken from
+    the input: a module / attribute name or a string constant of the program"""
+    a = args[0] if args else None
+    if hasattr(a, "co_names"):
+        words = set(a.co_names) | {x for x in a.co_consts if isinstance(x, str)}
+        return bool(words & ALL_TOKENS) or any(t in w for w in words if isinstance(w, str) for t in ALL_TOKENS if len(t) >= 4)
+    if isinstance(a, (bytes, bytearray)):
+        a = bytes(a).decode("latin-1")
+    if isinstance(a, str):
+        return any(t in a for t in ALL_TOKENS if len(t) >= 2)
+    return True      # AST objects etc.: be conservative
+
+
 def _hook(ev, args):
     if not ARMED[0]:
         return
@@ -81,7 +99,7 @@ def _hook(ev, args):
         if _attribute() is not None:
             EVENTS.append((ev, repr(args)[:120]))
     elif ev in ("exec", "compile"):
-        if _attribute() == "fickling":
+        if _attribute() == "fickling" and _mentions_input(args):
             EVENTS.append((ev, repr(args)[:120]))
     elif ev == "open":
         path, mode = args[0], args[1]
@@ -203,6 +221,8 @@ def program(tpl, ni, x, fate, ai=0):
     module, name = NAMES[ni]
     TOKENS.clear()
     TOKENS.update({module.split(".")[0], ARGS[ai]})
+    ALL_TOKENS.clear()
+    ALL_TOKENS.update({module, module.split(".")[0], name, ARGS[ai], "text"})
     TOKENS.difference_update({"builtins", "__builtin__", "os", "sys", "importlib", "marshal", "_codecs"})     # always loaded
     if (module, name) == ("_codecs", "encode"):
         # the protocol 0-2 bytes idiom with an input-chosen codec: _codecs.encode(text, codec)
@@ -333,6 +353,8 @@ def monitor_selftest(k: int) -> bool:
             "import os; os.system('true')",
         ][k]
         co = compile(code, FICKLING_DIR + "_selftest_.py", "exec")
+        ALL_TOKENS.clear()
+        ALL_TOKENS.update({"1+1", "[1]"})          # what the simulated input "contains"
         with monitored():
             try:
                 exec(co, {})
